@@ -103,7 +103,7 @@ pub(crate) mod __verif_kani {
 
     //@ kind=I props=C03 bound=4_high_words(256_bits)_each_with_at_most_4_ones_at_arbitrary_positions,low_width=0 fn=EliasFanoCursor::advance_one : from ANY cursor satisfying the invariant (any index, or exhausted): afterwards index == min(idx+1,len), the returned element is element idx+1 of the sequence (None when exhausted), and the invariant holds again
     #[kani::proof]
-    #[kani::unwind(14)]
+    #[kani::unwind(10)]
     #[kani::stub(crate::util::broadword::select_in_word, contract_select_in_word)]
     #[kani::stub(crate::bits::scan::block_popcount, contract_block_popcount)]
     pub fn c03_cursor_advance_one() {
@@ -116,7 +116,7 @@ pub(crate) mod __verif_kani {
 
     //@ kind=I props=C03 bound=2_high_words(128_bits)_each_with_at_most_4_ones_at_arbitrary_positions,low_width=0 fn=EliasFanoCursor::advance_by : from ANY cursor satisfying the invariant and for EVERY k: usize (including k == 0, 1, > 64 and values that would overflow idx + k): index == min(idx+k,len), element == element idx+k (None when exhausted), invariant holds again
     #[kani::proof]
-    #[kani::unwind(14)]
+    #[kani::unwind(10)]
     #[kani::stub(crate::util::broadword::select_in_word, contract_select_in_word)]
     #[kani::stub(crate::bits::scan::block_popcount, contract_block_popcount)]
     pub fn c03_cursor_advance_by() {
@@ -133,24 +133,24 @@ pub(crate) mod __verif_kani {
     macro_rules! ef_case {
         ($name:ident, $body:expr) => {
             #[kani::proof]
-            #[kani::unwind(14)]
+            #[kani::unwind(10)]
             #[kani::stub(crate::util::broadword::select_in_word, contract_select_in_word)]
             #[kani::stub(crate::bits::scan::block_popcount, contract_block_popcount)]
             pub fn $name() {
-                let (h, len, ef) = any_ef::<3>();
+                let (h, len, ef) = any_ef::<2>();
                 let j: usize = kani::any();
-                let f: fn(&[u64; 3], usize, &EliasFano, usize) = $body;
+                let f: fn(&[u64; 2], usize, &EliasFano, usize) = $body;
                 f(&h, len, &ef, j);
             }
         };
     }
-    //@ kind=I props=C03 bound=3_high_words(192_bits)_each_with_at_most_4_ones_at_arbitrary_positions,low_width=0 fn=EliasFanoCursor::seek : from ANY cursor satisfying the invariant: seek(j) for every j: usize lands on element j (or exhausted) and re-establishes the invariant
+    //@ kind=I props=C03 bound=2_high_words(128_bits)_each_with_at_most_4_ones_at_arbitrary_positions,low_width=0 fn=EliasFanoCursor::seek : from ANY cursor satisfying the invariant: seek(j) for every j: usize lands on element j (or exhausted) and re-establishes the invariant
     ef_case!(c03_cursor_seek, |h, len, ef, j| { let mut c = any_cursor(h, len, ef); let r = c.seek(j); check_after(h, len, &c, r, j); });
-    //@ kind=I props=C03 bound=3_high_words(192_bits)_each_with_at_most_4_ones_at_arbitrary_positions,low_width=0 fn=EliasFano::cursor_from : cursor_from(j) for every j establishes the invariant on element j (or exhausted)
+    //@ kind=I props=C03 bound=2_high_words(128_bits)_each_with_at_most_4_ones_at_arbitrary_positions,low_width=0 fn=EliasFano::cursor_from : cursor_from(j) for every j establishes the invariant on element j (or exhausted)
     ef_case!(c03_cursor_from, |h, len, ef, j| { let c = ef.cursor_from(j); let r = c.current(); check_after(h, len, &c, r, j); });
-    //@ kind=I props=C03 bound=3_high_words(192_bits)_each_with_at_most_4_ones_at_arbitrary_positions,low_width=0 fn=EliasFano::cursor : cursor() establishes the invariant on element 0
+    //@ kind=I props=C03 bound=2_high_words(128_bits)_each_with_at_most_4_ones_at_arbitrary_positions,low_width=0 fn=EliasFano::cursor : cursor() establishes the invariant on element 0
     ef_case!(c03_cursor_new, |h, len, ef, j| { let c = ef.cursor(); let r = c.current(); check_after(h, len, &c, r, 0); });
-    //@ kind=B props=C03 bound=3_high_words(192_bits)_each_with_at_most_4_ones_at_arbitrary_positions,low_width=0 fn=EliasFano::{get,len,predecessor} : get(j) == element j (None past the end) for every j; len; predecessor(v) for every v: u32 is the last index holding the largest element <= v (None if all are greater)
+    //@ kind=B props=C03 bound=2_high_words(128_bits)_each_with_at_most_4_ones_at_arbitrary_positions,low_width=0 fn=EliasFano::{get,len,predecessor} : get(j) == element j (None past the end) for every j; len; predecessor(v) for every v: u32 is the last index holding the largest element <= v (None if all are greater)
     ef_case!(c03_get_and_predecessor, |h, len, ef, j| {
         let g = ef.get(j);
         if j < len { assert!(g == Some(val(h, j))); } else { assert!(g.is_none()); }
@@ -160,7 +160,7 @@ pub(crate) mod __verif_kani {
         // definition: last index i with val(i) <= v
         let mut best: Option<(usize, u32)> = None;
         let mut i = 0;
-        while i < 12 { if i < len { let x = val(h, i); if x <= v { best = Some((i, x)); } } i += 1; }
+        while i < 8 { if i < len { let x = val(h, i); if x <= v { best = Some((i, x)); } } i += 1; }
         assert!(p == best);
     });
 }
